@@ -366,6 +366,71 @@ def r2_capabilities(ctx) -> None:
                         r.ok("C16.R2b", q, f"{pname} = {short(v, 100)}", loc)
                     else:
                         r.violation("C16.R2b", q, f"{pname} = {short(v, 100)}", f"capability parameter re-assigned: {why}", loc)
+    # ---- R2e: the path restriction is never dropped on the way down (omission means None = unrestricted)
+    r.rule("C16.R2e", "a function that received vars_allowed_paths hands it on at every call of a function/constructor that accepts it (omitting it would silently lift the restriction: the default None means 'no restriction')")
+    for q, fi in sorted(prog.funcs.items()):
+        if "vars_allowed_paths" not in fi.params():
+            continue
+        for site in ctx.cg.sites.get(q, []):
+            c = site.node
+            if not isinstance(c, ast.Call):
+                continue
+            accepts = []
+            excluded: list[tuple[str, bool, str]] = []  # (class, is_subclass_test, polarity) facts about the receiver
+            if isinstance(c.func, ast.Attribute) and isinstance(c.func.value, ast.Name):
+                rn = c.func.value.id
+                for t, pol in guards_at(prog, fi, c):
+                    tt, pp = t, pol
+                    while isinstance(tt, ast.UnaryOp) and isinstance(tt.op, ast.Not):
+                        tt, pp = tt.operand, not pp
+                    if isinstance(tt, ast.Call) and call_name(tt) == "issubclass" and len(tt.args) == 2 and unparse(tt.args[0]) == rn:
+                        b = _resolve_class(ctx, fi, tt.args[1])
+                        if b:
+                            excluded.append((b, True, pp))
+                    if isinstance(tt, ast.Compare) and len(tt.ops) == 1 and isinstance(tt.ops[0], (ast.Is, ast.IsNot)) and unparse(tt.left) == rn:
+                        b = _resolve_class(ctx, fi, tt.comparators[0])
+                        if b:
+                            excluded.append((b, False, pp if isinstance(tt.ops[0], ast.Is) else not pp))
+
+            def feasible(owner: str) -> bool:
+                """can the receiver class be one whose method resolution yields a method of class `owner`?"""
+                cands = [x for x in prog.subclasses(owner) if (prog.lookup_method(x, c.func.attr) or None) is not None
+                         and prog.lookup_method(x, c.func.attr).cls.qual == owner] if isinstance(c.func, ast.Attribute) else [owner]
+                for b, is_sub, pol in excluded:
+                    if is_sub:
+                        cands = [x for x in cands if prog.is_subclass(x, b) == pol]
+                    else:
+                        cands = [x for x in cands if (x == b) == pol]
+                return bool(cands)
+
+            for callee in site.callees:
+                cf = prog.funcs.get(callee)
+                if cf is not None and cf.cls is not None and excluded and not feasible(cf.cls.qual):
+                    continue
+                if cf is not None and "vars_allowed_paths" in cf.params():
+                    accepts.append(cf)
+                elif callee.endswith(("__init__", "__post_init__")):
+                    cq = callee.rsplit(".", 1)[0]
+                    if "vars_allowed_paths" in prog.dataclass_fields(cq) if cq in prog.classes else False:
+                        accepts.append(callee)
+            if not accepts:
+                continue
+            loc = f"{fi.module.relpath}:{c.lineno}"
+            passed = any(kw.arg == "vars_allowed_paths" for kw in c.keywords) or any(kw.arg is None for kw in c.keywords)
+            if not passed:
+                # positional?
+                for cf in accepts:
+                    if isinstance(cf, FuncInfo):
+                        ps = [p_ for p_ in cf.params() if p_ not in ("self", "cls")]
+                        if "vars_allowed_paths" in ps and ps.index("vars_allowed_paths") < len(c.args):
+                            passed = True
+            if passed:
+                r.ok("C16.R2e", q, f"{short(c, 90)} passes vars_allowed_paths on", loc)
+            else:
+                r.violation("C16.R2e", q, short(c, 140),
+                            "this call accepts vars_allowed_paths but the caller's restriction is not handed on: the callee falls back to None, "
+                            "i.e. vars files anywhere on disk become executable below this point", loc)
+    r.floor("C16.R2e", 5)
     # ---- R2c construction-from-document sites
     _r2c(ctx, carriers)
     r.floor("C16.R2b", 20)
